@@ -425,6 +425,75 @@ def replay_axes(cex):
     return len(bad) > 0, {"n_wrong_batches": len(bad), "examples": bad[:3]}
 
 
+def replay_euler_rotate(cex):
+    """installed library: rotating identity molecules by Euler angles gives the orientation of Molecules.from_euler with the same arguments"""
+    from acryo import Molecules
+
+    bad = []
+    ang = np.array([[20.0, -35.0, 50.0], [5.0, 80.0, -10.0]])
+    for seq in ("ZXZ", "zyx", "XYZ", "yxz"):
+        for deg in (False, True):
+            for order in ("xyz", "zyx"):
+                a = ang if deg else np.deg2rad(ang)
+                m0 = Molecules(np.zeros((2, 3)))
+                got = m0.rotate_by_euler_angle(a, seq, degrees=deg, order=order)
+                want = Molecules.from_euler(np.zeros((2, 3)), a, seq=seq, degrees=deg, order=order)
+                if not np.allclose(got.rotator.as_matrix(), want.rotator.as_matrix(), atol=1e-6):
+                    bad.append({"seq": seq, "degrees": deg, "order": order})
+    return len(bad) > 0, {"n": len(bad), "examples": bad[:6]}
+
+
+def sec_euler_rotate(rec, patches=None):
+    """rotate_by_euler_angle builds the same rotation as Molecules.from_euler for every seq / degrees / order"""
+    made = []
+    RecEuler = rotation.SymRotation
+    orig_from_euler = rotation.SymRotation.__dict__["from_euler"]
+
+    def rec_from_euler(cls, seq, angles, degrees=False):
+        made.append((str(seq), to_symarray(angles).copy(), bool(degrees)))
+        return orig_from_euler.__func__(cls, seq, angles, degrees)
+
+    rotation.SymRotation.from_euler = classmethod(rec_from_euler)
+    try:
+        _sec_euler_rotate(rec, patches, made, RecEuler)
+    finally:
+        rotation.SymRotation.from_euler = orig_from_euler
+
+
+def _sec_euler_rotate(rec, patches, made, RecEuler):
+    L = load.load(MODS, overrides={"Rotation": RecEuler, "pl": PlShim()}, patches=patches)
+    MC = L["acryo.molecules.core"]
+    rec.encodes("acryo/molecules/core.py:Molecules.rotate_by_euler_angle", "acryo/molecules/core.py:Molecules.from_euler", "acryo/molecules/_rotation.py:from_euler_xyz_coords")
+    rec.assume("scipy's Rotation.from_euler is recorded: two rotations are the same if they were built with the same (seq, angles, degrees)")
+    ang = [real(f"a{k}") for k in range(3)]
+    p = [real(f"p{a}") for a in range(3)]
+    for seq in ("ZXZ", "zyx", "XYZ", "yxz"):
+        for deg in (False, True):
+            for order in ("xyz", "zyx"):
+                tag = f"euler-rotate[{seq},degrees={deg},order={order}]"
+
+                def run():
+                    del made[:]
+                    MC.Molecules.from_euler(to_symarray([p]), to_symarray([ang]), seq=seq, degrees=deg, order=order)
+                    ref = list(made)
+                    del made[:]
+                    m0 = MC.Molecules(to_symarray([p]), RecEuler([[0, 0, 0, 1]]))
+                    m0.rotate_by_euler_angle(to_symarray([ang]), seq, degrees=deg, order=order)
+                    return ref, list(made)
+
+                for pth in explore(run, max_paths=5):
+                    if not pth.ok:
+                        rec.fact(f"{tag}/runs", False, key="C11/euler-rotate/raises", detail={"exc": repr(pth.exc)[:300]}, reproduced=replay_euler_rotate({})[0])
+                        continue
+                    ref, got = pth.result
+                    ok1 = len(ref) == 1 and len(got) == 1 and ref[0][0] == got[0][0] and ref[0][2] == got[0][2] == deg
+                    rec.fact(f"{tag}/same-sequence-and-unit-flag", bool(ok1), key="C11/euler-rotate/flags", detail={"from_euler": repr(ref[0][::2]) if ref else None, "rotate_by_euler_angle": repr(got[0][::2]) if got else None},
+                             reproduced=True if ok1 else replay_euler_rotate({})[0])
+                    if ok1:
+                        a1, a2 = _obj(ref[0][1]).reshape(-1), _obj(got[0][1]).reshape(-1)
+                        rec.query(f"{tag}/same-angles", [], z3.And(*[zr(x) == zr(y) for x, y in zip(a1, a2)]) if len(a1) == len(a2) else z3.BoolVal(False), key="C11/euler-rotate/angles", replay=replay_euler_rotate, twin=False)
+
+
 def sec_align_rotator(rec, patches=None):
     from symx import angles
 
@@ -578,7 +647,7 @@ def sections(tier):
     R = rotation.R30
     qs = [R[9], R[10], R[1], R[4]] if quick(tier) else R
     S = [("axes", "checks.c11", "sec_axes", {}), ("inplace", "checks.c11", "sec_inplace", {}), ("coords", "checks.c11", "sec_coords", {}),
-         ("representations", "checks.c11", "sec_representations", {}), ("align-rotator", "checks.c11", "sec_align_rotator", {}), ("axes-degenerate", "checks.c11", "sec_axes_degenerate", {})]
+         ("representations", "checks.c11", "sec_representations", {}), ("align-rotator", "checks.c11", "sec_align_rotator", {}), ("axes-degenerate", "checks.c11", "sec_axes_degenerate", {}), ("euler-rotate", "checks.c11", "sec_euler_rotate", {})]
     for i, q in enumerate(qs):
         S.append((f"motion-{i}", "checks.c11", "sec_motion", {"qm": q}))
     return S
